@@ -749,12 +749,14 @@ package middleware
 //@ ensures [C03:type] validSimple(tpe, items) ==> result != nil
 //@ ensures [C03:unknown] tpe != "string" && tpe != "number" && tpe != "integer" && tpe != "boolean" && tpe != "file" && tpe != "array" && tpe != "object" ==> result == nil
 //@ ensures [C03:boolkind] result != nil && rtBase(result) == 1 ==> tpe == "boolean"
+//@ ensures [C03:slicekind] result != nil && tpe == "array" ==> rtKind(result) == 23
 //@ assigns \opaque
 
 //@ func (*untypedParamBinder).Type
 //@ requires p != nil && p.parameter != nil && p.formats != nil && declsOK()
 //@ ensures [C03:type] validSimple(old(p.parameter.Type), old(p.parameter.Items)) ==> result != nil
 //@ ensures [C03:boolkind] result != nil && rtBase(result) == 1 ==> old(p.parameter.Type) == "boolean"
+//@ ensures [C03:slicekind] result != nil && old(p.parameter.Type) == "array" ==> rtKind(result) == 23
 //@ assigns \opaque
 
 //@ func (*untypedParamBinder).allowsMulti
@@ -786,6 +788,7 @@ package middleware
 //@ watch SF = call (*untypedParamBinder).setFieldValue
 //@ requires p != nil && p.parameter != nil && rvValid(target) && textUnmarshalType != nil
 //@ requires rtBase(rvType(target)) == 1 && p.parameter.Default != nil ==> dynkind(p.parameter.Default) == 1
+//@ requires p.parameter.Type == "array" && rvCanSet(target) ==> rvKind(target) == 23
 //@ ensures [C03:array] old(p.parameter.Type) == "array" ==> calls(SS) == 1 && calls(SF) == 0 && arg(SS,0,0) == p && arg(SS,0,1) == target && arg(SS,0,2) == old(p.parameter.Default) && arg(SS,0,3) == data && arg(SS,0,4) == hasKey && result == ret(SS,0,0)
 //@ ensures [C03:lastvalue] old(p.parameter.Type) != "array" ==> calls(SF) == 1 && calls(SS) == 0 && arg(SF,0,0) == p && arg(SF,0,1) == target && arg(SF,0,2) == old(p.parameter.Default) && arg(SF,0,3) == (len(data) > 0 ? old(data[len(data)-1]) : "") && arg(SF,0,4) == hasKey && result == ret(SF,0,0)
 
@@ -869,6 +872,7 @@ package middleware
 //@ watch CO = invoke (runtime.Consumer).Consume
 //@ requires p != nil && p.parameter != nil && request != nil && request.URL != nil && rvValid(target) && textUnmarshalType != nil
 //@ requires rtBase(rvType(target)) == 1 && p.parameter.Default != nil ==> dynkind(p.parameter.Default) == 1
+//@ requires p.parameter.Type == "array" && rvCanSet(target) ==> rvKind(target) == 23
 //@ requires p.parameter.In == "body" ==> consumer != nil
 //@ stable comp:G!github.com/go-openapi/runtime/middleware.textUnmarshalType, comp:F!github.com/go-openapi/spec.SimpleSchema!Default, comp:F!github.com/go-openapi/spec.SimpleSchema!Type, comp:F!github.com/go-openapi/spec.SimpleSchema!Format, comp:F!github.com/go-openapi/spec.SimpleSchema!CollectionFormat, comp:F!github.com/go-openapi/spec.ParamProps!In, comp:F!github.com/go-openapi/spec.ParamProps!Name, comp:F!github.com/go-openapi/spec.ParamProps!Required, comp:F!github.com/go-openapi/spec.ParamProps!AllowEmptyValue
 //@ spec loc() := old(p.parameter.In)
@@ -892,11 +896,11 @@ package middleware
 //@ requires o != nil && request != nil && request.URL != nil && o.debugLogf != nil && textUnmarshalType != nil && declsOK()
 //@ requires forall k string :: in(k, o.Parameters) ==> in(k, o.paramBinders) && mapat(o.paramBinders, k) != nil && mapat(o.paramBinders, k).parameter != nil && mapat(o.paramBinders, k).formats != nil
 //@ requires forall k string :: in(k, o.Parameters) && mapat(o.paramBinders, k).parameter.In != "body" ==> validSimple(mapat(o.paramBinders, k).parameter.Type, mapat(o.paramBinders, k).parameter.Items)
-//@ requires forall k string :: in(k, o.Parameters) && mapat(o.paramBinders, k).parameter.In == "body" ==> consumer != nil && mapat(o.Parameters, k).ParamProps.Schema != nil
+//@ requires forall k string :: in(k, o.Parameters) && mapat(o.paramBinders, k).parameter.In == "body" ==> consumer != nil && mapat(o.Parameters, k).ParamProps.Schema != nil && mapat(o.paramBinders, k).parameter.Type == ""
 //@ requires forall k string :: in(k, o.Parameters) && mapat(o.paramBinders, k).parameter.Default != nil ==> dynkind(mapat(o.paramBinders, k).parameter.Default) == 1 || mapat(o.paramBinders, k).parameter.Type != "boolean"
 //@ assume after IND calls(IND) == 1 ==> (rvKind(ret(IND,0,0)) == 21 || rvKind(ret(IND,0,0)) == 25)
 //@ watch FBN = call (reflect.Value).FieldByName tag mappos-1
-//@ assume after FBN forall i int :: called(FBN,i) && rtBase(rvType(ret(FBN,i,0))) == 1 ==> mapat(o.paramBinders, mapkey(i)).parameter.Type == "boolean"
+//@ assume after FBN forall i int :: called(FBN,i) ==> (rtBase(rvType(ret(FBN,i,0))) == 1 ==> mapat(o.paramBinders, mapkey(i)).parameter.Type == "boolean") && (mapat(o.paramBinders, mapkey(i)).parameter.Type == "array" && rvCanSet(ret(FBN,i,0)) ==> rvKind(ret(FBN,i,0)) == 23)
 //@ stable request.URL, o.Parameters[*], o.paramBinders[*], comp:G!github.com/go-openapi/runtime/middleware.textUnmarshalType, comp:F!github.com/go-openapi/spec.SimpleSchema!Default, comp:F!github.com/go-openapi/spec.SimpleSchema!Type, comp:F!github.com/go-openapi/spec.SimpleSchema!Items, comp:F!github.com/go-openapi/spec.SimpleSchema!Format, comp:F!github.com/go-openapi/spec.ParamProps!In, comp:F!github.com/go-openapi/spec.ParamProps!Schema
 //@ spec failed(i) := (called(BB,i) && ret(BB,i,0) != nil) || (called(HE,i) && ret(HE,i,0))
 //@ ensures [C03:validate] forall i int :: called(VAL,i) ==> called(BB,i) && ret(BB,i,0) == nil && recv(VAL,i) == mapat(o.paramBinders, inloop(0, mapkey(i))).validator
